@@ -175,6 +175,59 @@ Theorem C12_json_accepted_fields :
 Proof. exact json_accepted_fields. Qed.
 Print Assumptions C12_json_accepted_fields.
 
+(* 1b. The size hypothesis `fits` follows from plain bounds (256-bit numbers, recipient of at most 20
+       bytes, less than 4 GiB of data); 1 and 2b restated with those bounds. *)
+Theorem C12_tx_bounded_fits :
+  forall (sg : signer) (t : tx),
+    tx_bounded t -> signer_bounded sg -> fits (sighash_item sg t) = true /\ fits (tx_item t) = true.
+Proof. exact tx_bounded_fits. Qed.
+Print Assumptions C12_tx_bounded_fits.
+
+Theorem C12_sighash_injective_bounded :
+  forall (H : bytes -> bytes) (sg1 sg2 : signer) (t1 t2 : tx),
+    to_wf t1 -> to_wf t2 -> tx_bounded t1 -> tx_bounded t2 -> signer_bounded sg1 -> signer_bounded sg2 ->
+    sighash H sg1 t1 = sighash H sg2 t2 ->
+    (same_signed_fields t1 t2 /\ hash_domain sg1 = hash_domain sg2) \/
+    collision H (encode (sighash_item sg1 t1)) (encode (sighash_item sg2 t2)).
+Proof. exact sighash_injective_bounded. Qed.
+Print Assumptions C12_sighash_injective_bounded.
+
+Theorem C12_mutation_changes_sender_bounded :
+  forall H ecrecover (sg0 : signer) (t0 : tx) (sg : signer) (t : tx) (a : bytes),
+    to_wf t0 -> to_wf t -> tx_bounded t0 -> tx_bounded t -> signer_bounded sg0 -> signer_bounded sg ->
+    ~ (same_signed_fields t0 t /\ hash_domain sg0 = hash_domain (eff_signer sg t)) ->
+    sender_signer H ecrecover sg t = Ok a ->
+    (exists h r s v, h <> sighash H sg0 t0 /\ recover_addr H ecrecover h r s v = Ok a) \/
+    collision H (encode (sighash_item sg0 t0)) (encode (sighash_item (eff_signer sg t) t)).
+Proof. exact mutation_changes_sender_bounded. Qed.
+Print Assumptions C12_mutation_changes_sender_bounded.
+
+(* 2a'. Liveness of SignTx: if crypto.Sign returns [R || S || recid] in range, low-S and recovering
+        to the key's address (sign_correct), SignTx succeeds under Frontier, Homestead and every
+        EIP-155 signer with a non-zero chain id, and the result is attributed to the key.
+        (NewEIP155Signer(0) is excluded: its hash covers chain id 0 while V is 27/28, so its own
+        Sender recovers over the Homestead hash and SignTx reports a mismatch.) *)
+Theorem C12_sign_tx_succeeds :
+  forall H ecrecover sign pub_addr (sg : signer) (key : bytes) (t : tx) (sig : bytes),
+    sign_correct H ecrecover sign pub_addr -> sg <> EIP155 0 -> sign key (sighash H sg t) = Some sig ->
+    exists t', sign_tx H ecrecover sign pub_addr sg key t = SOk t' /\ same_signed_fields t t' /\
+               sender_signer H ecrecover sg t' = Ok (pub_addr key).
+Proof. exact sign_tx_succeeds. Qed.
+Print Assumptions C12_sign_tx_succeeds.
+
+(* 6d. MarshalJSON (json_of_tx) then UnmarshalJSON (tx_of_json) returns the same transaction - hence
+       the same hash and sender - for 64-bit nonce / gas, 256-bit amounts (hexutil.Big's limit) and a
+       signature UnmarshalJSON's own check accepts. *)
+Theorem C12_json_roundtrip :
+  forall (t : tx) (h : bytes),
+    t_nonce t < 2 ^ 64 -> t_gas t < 2 ^ 64 ->
+    t_price t < 2 ^ 256 -> t_value t < 2 ^ 256 -> t_v t < 2 ^ 256 -> t_r t < 2 ^ 256 -> t_s t < 2 ^ 256 ->
+    (match t_to t with Some a => lenN a = 20 | None => True end) -> lenN h = 32 ->
+    json_accepts t = true ->
+    tx_of_json (json_of_tx t h) = Some t.
+Proof. exact json_roundtrip. Qed.
+Print Assumptions C12_json_roundtrip.
+
 (* 3b. An EIP-155 signer attributes a replay-protected transaction only when the chain id derived
        from its V is the signer's, and then V = 35 + 2c + recovery id exactly (V arithmetic is over
        Z with the narrowing recoverPlain performs: no negative or wrapped V' slips through). *)
@@ -230,5 +283,6 @@ Example C12_example :
   to_wf w_tx /\ tx_rlp_wf w_tx /\ fits (sighash_item (EIP155 3) w_tx) = true /\
   eff_signer (EIP155 3) w_tx = EIP155 3 /\
   t_s (malleate 3 w_tx) <= secp_half_n /\ t_v (malleate 3 w_tx) = 41 /\
-  decode_tx (encode_tx w_tx) = Some w_tx.
+  decode_tx (encode_tx w_tx) = Some w_tx /\
+  tx_of_json (json_of_tx w_tx (tx_hash keccak256 w_tx)) = Some w_tx.
 Proof. vm_compute. repeat split; try discriminate; reflexivity. Qed.
